@@ -133,12 +133,12 @@ def handle (args : List Sexp) : String :=
     (match parseDecls ts, t.nat? with
      | some D, some tt =>
        let f := lookupFieldY F D tt x
-       let m := lookupMethodY D tt x
+       let m := lookupMethodY F D tt x
        let fs := match f with | some h => showPath h.path | none => "-"
        let (mo, mp, mptr) := match m with
          | some h => (typeName D h.owner, showPath h.path, b01 h.meth.ptr)
          | none => ("-", "-", "0")
-       let d := match methodDepthY D tt x with | some d => toString d | none => "-1"
+       let d := match methodDepthY F D tt x with | some d => toString d | none => "-1"
        s!"field={fs} mowner={mo} mpath={mp} mptr={mptr} depth={d} ysel={showSel D (selectY F D tt x)} gsel={showSel D (select D tt x)}"
      | _, _ => "bad-op")
   | [.atom "mset", ts, t] =>
